@@ -3,7 +3,7 @@
    LR/Automaton_proofs.v about the models LR/Driver.v (ParserState.feed_token) and
    LR/Automaton.v (lalr_analysis.py). *)
 From Coq Require Import List Arith Bool ZArith.
-From LV Require Import Cfg.Grammar LR.Driver LR.Driver_proofs LR.Automaton LR.Automaton_proofs LR.Automaton_wf LR.Automaton_la LR.Automaton_complete LR.La_complete LR.Lalr_complete LR.Lr1Merge LR.Lr1Merge_proofs LR.Lr1Merge_converse LR.Digraph LR.Digraph_proofs.
+From LV Require Import Cfg.Grammar LR.Driver LR.Driver_proofs LR.Automaton LR.Automaton_proofs LR.Automaton_wf LR.Automaton_la LR.Automaton_complete LR.La_complete LR.Lalr_complete LR.Lr1Merge LR.Lr1Merge_proofs LR.Lr1Merge_converse LR.Digraph LR.Digraph_proofs Gen.LalrHoles LR.DriverGen LR.DriverGen_proofs.
 Import ListNotations.
 
 (* "accepts only sentences", for EVERY table in which a reduce by r is only offered in states
@@ -356,6 +356,40 @@ Definition C02_digraph_complete_full_statement : Prop :=
   exists F H, digraph_coded n R gc H0 = Some (F, H) /\
               forall x, x < n -> forall t, ls R (map (fun c => nth c H0 []) gc) x t -> In t (fset F H x).
 
+(* ---- Round 12: the hand models are tied to the source by REGENERATION, not only by correspondence ----
+   translator/gen_lalr.py pins the statement skeleton of ParserState.feed_token, _Parser.parse_from_state and
+   LALR_Analyzer.compute_lalr1_states and translates every decision condition of these functions (both asserts
+   before a shift, `action is Shift`, the `if size:` guard, the three slice bounds, the assert on the goto entry,
+   `is_end and state_stack[-1] == end_state`, the is_end flags; `len(rules) > 1`, reverse=True,
+   `best[0] > second_best[0]`, `la in actions`, `if reduce_reduce`) to Gallina on every run (Gen/LalrHoles.v).
+   LR/DriverGen.v is the pinned skeleton over these regenerated terms, with Python's list semantics (stacks with
+   the top LAST, negative slice bounds, clipping).  The theorems say that the hand models every other C02 / C08 /
+   C14 theorem is about compute the same thing - for every table, configuration, token, fuel. *)
+Theorem C02_feed_token_regenerated (tok : Type) (ttype : tok -> nat) (P : ptable) (fuel : nat)
+        (c : config tok) (k : tok) (is_end : bool) :
+  gfeed tok ttype P fuel (cfg_py tok c) k is_end = out_py tok (feed tok ttype P fuel c k is_end).
+Proof. exact (gfeed_eq_feed tok ttype P fuel c k is_end). Qed.
+Print Assumptions C02_feed_token_regenerated.
+
+Theorem C02_parse_from_state_regenerated (tok : Type) (ttype : tok -> nat) (P : ptable) (fuel : nat)
+        (w : list tok) (end_tok : tok) :
+  gparse tok ttype P fuel w end_tok = out_py tok (parse tok ttype P fuel w end_tok) /\
+  pfs_end_type_is_END = true /\ ip_eof_type_is_END = true /\ pfs_loop_is_end = false /\ pfs_end_is_end = true.
+Proof. exact (conj (gparse_eq_parse tok ttype P fuel w end_tok) end_token_pinned). Qed.
+Print Assumptions C02_parse_from_state_regenerated.
+
+Theorem C02_conflict_resolution_regenerated (rules : list rule) (prio : list Z) (roots : list nat) (tEND fuel : nat) :
+  gcompute_lalr rules prio roots tEND fuel = compute_lalr rules prio roots tEND fuel /\
+  (forall rs, gdecide prio rs = decide prio rs) /\
+  (forall A LA q, grow rules prio A LA q = row rules prio A LA q) /\
+  rr_prio_default = 0%Z.
+Proof.
+  exact (conj (gcompute_lalr_eq rules prio roots tEND fuel)
+          (conj (gdecide_eq_decide prio)
+            (conj (fun A LA q => grow_eq_row rules prio A LA q) prio_default_pinned))).
+Qed.
+Print Assumptions C02_conflict_resolution_regenerated.
+
 (* Non-vacuity: the grammar of finding F13 (LALR(1), shared core {b: B., e2: B.}):
      start: a E | c | Y e2 D    a: Y b    c: Y a D    b: B    e2: B
    terminals $END=0 E=1 Y=2 D=3 B=4; non-terminals start=0 a=1 c=2 b=3 e2=4 $root=5.
@@ -388,3 +422,22 @@ Example C02_example :
   | _ => False
   end.
 Proof. vm_compute. repeat split; try reflexivity; try (eexists; repeat split; reflexivity); repeat constructor. Qed.
+
+(* Non-vacuity of the regenerated driver: on the table of C02_example the skeleton-over-regenerated-conditions
+   driver accepts "y b d" (Python-order stacks), rejects "y d" with the stack [0; state after y], and the
+   regenerated resolution picks the strictly greatest priority / reports a tie. *)
+Example C02_example_regenerated :
+  match compute_lalr ex_rules (repeat 0%Z 8) [7] 0 100 with
+  | ATable A rel LA R =>
+      match end_state ex_rules [7] A 0 with
+      | Some qe =>
+          (exists t, gparse nat (fun k => k) (ptable_of_rows R 0 qe) 50 [2; 4; 3] 0 = GAccepted t /\ yield nat t = [2; 4; 3]) /\
+          (exists c, gfeed_all nat (fun k => k) (ptable_of_rows R 0 qe) 50 (ginit nat (ptable_of_rows R 0 qe)) [2; 3]
+                     = GUnexpected c /\ length (g_states c) = 2 /\ hd 1 (g_states c) = 0) /\
+          gcompute_lalr ex_rules (repeat 0%Z 8) [7] 0 100 = ATable A rel LA R
+      | None => False
+      end
+  | _ => False
+  end /\
+  gdecide [1%Z; 3%Z; 2%Z] [0; 1; 2] = Use 1 /\ gdecide [3%Z; 3%Z; 2%Z] [0; 1; 2] = Collision /\ gdecide [] [4] = Use 4.
+Proof. vm_compute. repeat split; try reflexivity; eexists; repeat split; reflexivity. Qed.
